@@ -400,6 +400,85 @@ pub fn run(ctx: &mut Ctx) {
             }
         }
     }
+    // many attributes in front of the FINGERPRINT (511 / 512 / 513 / 1000 / 5000 tiny ones): the CRC is
+    // still checked: header, CRC and sampled bit flips rejected, near-miss relations rejected
+    {
+        let mut gi = 0u64;
+        for count in [100usize, 511, 512, 513, 1000, 1024, 5000] {
+            for rep in 0..2 {
+                gi += 1;
+                if !ctx.mine(gi) {
+                    continue;
+                }
+                let mut r2 = ctx.rng("many-attrs-fp", gi);
+                let tid = gen_tid(&mut r2);
+                let tlvs: Vec<Tlv> = (0..count).map(|i| Tlv::new(0x4000 + (i as u16 % 0x3000), vec![i as u8; (i + rep) % 5])).collect();
+                let mut b = encode(rep as u8, 1, &tid, &tlvs);
+                if rep == 1 {
+                    seal(&mut b, Seal::Sha1, b"many");
+                }
+                seal(&mut b, Seal::Fingerprint, &[]);
+                if !check_base(ctx, &b) {
+                    continue;
+                }
+                ctx.count("many-attribute-fingerprinted-messages");
+                near_miss_relations(ctx, &b);
+                let n = b.len();
+                let mut m = b.clone();
+                let mut bits: Vec<usize> = (0..160).collect();
+                bits.extend((n - 8) * 8..n * 8);
+                for _ in 0..64 {
+                    bits.push(r2.usize(n * 8));
+                }
+                for bit in bits {
+                    m[bit / 8] ^= 1 << (bit % 8);
+                    check_mutant(ctx, &m);
+                    m[bit / 8] ^= 1 << (bit % 8);
+                }
+            }
+        }
+    }
+    // large typed attributes handed to the builder by reference (ALTERNATE-DOMAIN has no limit,
+    // UNKNOWN-ATTRIBUTES lists can be long): sizes around 1 KiB, 2 KiB, 4 KiB, 64 KiB
+    {
+        use crate::refimpl::attrs::{Kind, RefVal};
+        let mut gi = 0u64;
+        for size in [1000usize, 1016, 1017, 1020, 1021, 1024, 1025, 2047, 2048, 2049, 4096, 4097, 8192, 30_000, 65_000] {
+            for kind in 0..2 {
+                gi += 1;
+                if !ctx.mine(gi) {
+                    continue;
+                }
+                let mut r2 = ctx.rng("big-typed", gi);
+                let spec = if kind == 0 {
+                    AttrSpec::Typed(Kind::AlternateDomain, RefVal::Text(crate::gen::vals::text_exact(&mut r2, size)))
+                } else {
+                    AttrSpec::Typed(Kind::UnknownAttributes, RefVal::TypeList((0..(size / 2).min(32_000)).map(|i| 0x0100 + i as u16).collect()))
+                };
+                for seals in [vec![SealSpec::Fp], vec![SealSpec::Sha1, SealSpec::Fp], vec![SealSpec::Sha256, SealSpec::Fp]] {
+                    let p = Program { class: 0, method: 1, tid: gen_tid(&mut r2), attrs: vec![AttrSpec::Typed(Kind::Software, RefVal::Text("s".into())), spec.clone()], seals, creds: RefCreds::Short("big".into()) };
+                    ctx.eval();
+                    let Some(bytes) = build_program(&p) else { continue };
+                    let want = p.reference_bytes();
+                    let n = bytes.len();
+                    if n < 28 || n != want.len() || bytes[n - 8..] != want[n - 8..] {
+                        ctx.violation(
+                            "C09",
+                            "builder-fingerprint-is-rfc-crc",
+                            "MessageBuilder::add_fingerprint",
+                            &format!("large-typed-attribute,{}", if kind == 0 { "ALTERNATE-DOMAIN" } else { "UNKNOWN-ATTRIBUTES" }),
+                            || p.to_json(),
+                            format!("{} bytes …{}", want.len(), hex(&want[want.len().saturating_sub(8)..])),
+                            format!("{} bytes …{}", n, hex(&bytes[n.saturating_sub(8)..])),
+                        );
+                    }
+                    ctx.count("builder-fingerprints-large-typed");
+                }
+            }
+        }
+    }
+    ctx.require("many-attribute-fingerprinted-messages", 8);
+    ctx.require("builder-fingerprints-large-typed", 40);
     ctx.require("exact-64k-boundary-fingerprints", 40);
     ctx.require("near-miss-fingerprint-relations", 10_000);
     ctx.require("builder-fingerprints", 5_000);
